@@ -33,6 +33,7 @@ fn main() {
         "word-ops" => words::ops(rest),
         "lex-ops" => lexops::ops(rest),
         "parse-ops" => lexops::parse_ops(rest),
+        "aliasp-ops" => lexops::alias_ops(rest),
         "c09-spec" => words::c09(rest),
         "render-all" => words::render_all(rest),
         "interp-ops" => interp::ops(rest),
